@@ -422,6 +422,7 @@ def run_property(prop, cfg, tier, known, only=None):
         inconclusive("solver error output: " + errs[0][:200])
         code = EXIT_INCONCLUSIVE if code == EXIT_OK else code
     res["nontrivial"] = witnesses
+    res["validated_inputs"] = sum(smp.get("translator_validation", {}).get("compared", 0) for smp in res["samples"])
     if res["exit"] == EXIT_INCONCLUSIVE and code == EXIT_OK:
         code = EXIT_INCONCLUSIVE
     res["exit"] = code if code != EXIT_OK else res["exit"]
@@ -434,7 +435,7 @@ def run_property(prop, cfg, tier, known, only=None):
 def validate_translation(spec, enc, z3, binp, in_names):
     """Concrete boundary inputs through both the real function and the encoding (Serval-style validation)."""
     name = spec["name"]
-    inputs = c19.boundary_inputs(name)
+    inputs = c19.boundary_inputs(name, int(os.environ.get("VERIF_SEED", "0") or 0))
     lines = [name + " " + " ".join(str(x) for x in v) for v in inputs]
     native = native_batch(binp, lines) if lines else []
     compared, mismatches = 0, []
